@@ -114,7 +114,7 @@ def outcomeStr (o : Outcome) : String :=
   let a := String.join (o.alt.map fun c => "|" ++ clsStr c)
   clsStr o.cls ++ a ++ (if o.mutates then " mut" else " nomut")
 
-def bit : String → Option Bool
+def lifeBit : String → Option Bool
   | "0" => some false | "1" => some true | _ => none
 
 def parseOwnEv (t : String) : Option SysEv :=
@@ -177,8 +177,8 @@ def handleLife : List String → Option String
   | "run" :: seeks :: mode :: bg :: frozen :: due :: tx :: evs => do
     let sk ← (match seeks with | "seeks" => some true | "noseeks" => some false | _ => none)
     let (md, _) ← parseMode mode
-    let bg ← bit bg
-    let fr ← bit frozen
+    let bg ← lifeBit bg
+    let fr ← lifeBit frozen
     let due ← due.toNat?
     let tx ← parseTxSt tx
     let es ← evs.mapM parseRunEv
